@@ -44,6 +44,18 @@ SWAPS = [
     ('bool', r'\btrue\b', 'false'), ('bool', r'\bfalse\b', 'true'),
     ('neg', r'(?<=[(\s])!(?=[a-zA-Z_(])', ''),
     ('role', r'PolygonRing::Outer', 'PolygonRing::Inner'), ('role', r'PolygonRing::Inner', 'PolygonRing::Outer'),
+    # second operator set: fields, ranges, ends, destinations
+    ('field', r'\.x\b(?!\()', '.y'), ('field', r'\.y\b(?!\()', '.x'), ('field', r'\.z\b(?!\()', '.m'), ('field', r'\.m\b(?!\()', '.z'),
+    ('field', r'\bmin\.', 'max.'), ('field', r'\bmax\.', 'min.'),
+    ('field', r'x_range', 'y_range'), ('field', r'y_range', 'x_range'), ('field', r'z_range', 'm_range'), ('field', r'm_range', 'z_range'),
+    ('field', r'x_mut', 'y_mut'), ('field', r'y_mut', 'x_mut'),
+    ('range', r'(?<!\.)\.\.(?![.=])', '..='), ('range', r'\.\.=', '..'),
+    ('ends', r'\.first\(\)', '.last()'), ('ends', r'\.last\(\)', '.first()'), ('ends', r'\.rev\(\)', ''),
+    ('dest', r'shp_dest', 'shx_dest'), ('dest', r'\bshx_dest', 'shp_dest'),
+    ('field', r'record_size', 'record_number'), ('field', r'record_number', 'record_size'),
+    ('field', r'file_length', 'version'), ('field', r'num_points', 'num_parts'), ('field', r'num_parts', 'num_points'),
+    ('ends', r'saturating_sub', 'wrapping_sub'), ('ends', r'saturating_add', 'wrapping_add'),
+    ('ends', r'\.skip\(1\)', ''), ('ends', r'\.take\(', '.skip('),
 ]
 
 
